@@ -188,8 +188,20 @@ func (s *scheduler) park(g *gor) {
 	s.cur = g
 }
 
+// touch records that the running goroutine has just had an effect on objs outside a yield
+// (e.g. registering as a waiter): sleeping goroutines whose pending operation depends on
+// those objects must be woken (sleep-set invariant).
+func (s *scheduler) touch(objs ...interface{}) {
+	for id := range s.sleep {
+		if dependent(s.gs[id].pend, objs) {
+			delete(s.sleep, id)
+		}
+	}
+}
+
 // block makes g wait until cond holds (cond is evaluated by the scheduler).
 func (s *scheduler) block(g *gor, why string, cond func() bool, objs ...interface{}) {
+	s.touch(objs...)
 	g.blocked = cond
 	g.why = why
 	s.yield(g, why, objs...)
